@@ -54,6 +54,34 @@ def run(ctx):
         ctx.log("waiting client: %s" % wstats)
     finally:
         shutil.rmtree(wd, ignore_errors=True)
+    # The whole release binary killed and restarted over its own segment with a client attached all along;
+    # what the file's timestamps say at the restart varies (tmpfs never refreshes the mtime of a mapped file:
+    # after 17 minutes of uptime every segment "looks" old).
+    import json
+    from . import sandbox
+    from .common import VERIF
+    binary_info = {"runs": 0, "ages": []}
+    binary_incon = None
+    if sandbox.available():
+        relbin = os.path.join(ctx.build_repo(["clock-bound-d", "clock-bound-ffi"], release=True), "clockbound")
+        ages = ["keep", "-1001", "-7200", "-630000000", "3600"] if q else ["keep", "-999", "-1001", "-3600", "-7200", "-86400", "-630000000", "3600", "-1700000000"]
+        cmds, outs = [], []
+        for i, age in enumerate(ages):
+            o = os.path.join(ctx.tmp, "c04restart-%d.json" % i)
+            outs.append(o)
+            cmds.append(sandbox.wrap(["python3", os.path.join(VERIF, "vlib", "nsrun.py"), "c04restart", relbin, o, age]))
+        for (rc, text), o in zip(ctx.run_parallel(cmds, 300), outs):
+            if rc != 0 or not os.path.exists(o):
+                binary_incon = "a whole-binary restart run did not finish: %s" % text[-200:]
+                continue
+            for r in json.load(open(o)):
+                binary_info["runs"] += 1
+                binary_info["ages"].append({"file_time_relative_s": r["age"], "generations_through_old_mapping": r.get("generations_seen_through_the_old_mapping"), "sizes_seen": r.get("sizes_seen")})
+                if r.get("inconclusive"):
+                    binary_incon = r["inconclusive"]
+                for pr in r.get("problems", []):
+                    viol.append({"sig": "whole-binary-restart-harms-attached-client", "detail": "clockbound killed after publishing (generation %s) and restarted with the segment file's timestamps set %s s relative to now, a client attached all along: %s" % (r.get("generation_at_death"), r["age"], pr), "replay": ""})
+        ctx.log("whole binary restarted under an attached client: %s" % binary_info)
     inconclusive = None
     if crashed:
         pass
@@ -62,6 +90,8 @@ def run(ctx):
             plans, len(table), ecov["after_crash_calls"], ecov["takeovers"], ecov["wipes"], magg["stops"])
     if ecov["shards_lost"] or cov["shards_lost"] or mlost > (1 if q else 8):
         inconclusive = "some runs did not finish"
+    if binary_incon and not inconclusive:
+        inconclusive = binary_incon
     coverage = {
         "evaluations": ecov["scenarios"] + cov["scenarios"] + magg["scenarios"],
         "distinct_nontrivial": len(table),
@@ -80,6 +110,7 @@ def run(ctx):
         "proc": pagg,
         "generation_cycle_cases": aba,
         "waiting_client": dict(wstats, states=sorted(left)),
+        "whole_binary_restart_under_attached_client": binary_info,
     }
     finish(ctx, coverage, viol, inconclusive, assumptions=["crash points are the hook sites (between every shared-memory or file operation), not every machine instruction",
                                                           "a stop drops the writer's mapping only (munmap), the file keeps whatever state the stop left, as with a killed process"])
